@@ -602,9 +602,25 @@ int check_main(Config cfg) {
   ev.set("property_id", cfg.prop).set("tier", cfg.tier).set("seed", (long long)cfg.seed).set("level", tp.level);
   Json cov = Json::obj();
   cov.set("evaluations", evaluations).set("distinct_nontrivial", (long long)distinct_nt.size());
-  cov.set("rule", "each evaluation is one simulated run: a seeded plan (generated project + explicit op/fault list) executed against the real library; "
-                  "non-trivial = the run met the property's activity rule (see DESIGN.md §6: e.g. for debugger properties at least 3 executed instructions and a mutating debugger "
-                  "operation or the program end reached; for fault properties at least one fault fired and the compile returned); distinct = distinct event-log hashes among those");
+  static const std::map<std::string, std::string> RULES = {
+      {"C01", "generated project (AST printed with a seeded layout, optional user macros, optional split over included files) compiled and run to its end through a debugger-interrupted session; compared with the source-level interpreter. Non-trivial: >= 3 instructions executed and the program end reached or a mutating debugger op applied."},
+      {"C02", "valid generated project (or a corpus input) in the pristine store, 0-3 explicit faults (lost/empty/truncated file, byte flip, token drop/dup/swap/insert/replace, literal inflation, odd main name) applied before Theo::compile; thorough tier enumerates single-fault positions per workload. Non-trivial: at least one fault fired and the compile returned."},
+      {"C03", "generated project biased to odd declarations (no parameters, OUT = parameter, redefinition, repeated parameter) compiled; load-time validator on the emitted program and operand decoding before every instruction of the session. Non-trivial: >= 3 instructions executed under the monitor."},
+      {"C05", "seeded history of debugger API calls (step/exec/bp/bpcur/clear/stepmode/reset/inspect) on a compiled generated project; after every op the VM must be at the golden run's ip and state hash; small programs also get ALL histories up to length 2 (quick) / 3 (thorough) over an 11-letter alphabet. Non-trivial: >= 3 instructions and a mutating debugger op or the end reached."},
+      {"C06", "same sessions as C05 plus per-location sweeps; every return value / stop position / reported location / enabled set checked against the debugger model. Non-trivial as C05."},
+      {"C07", "canonical-layout, macro-free generated project; complete stepping runs and mixed sessions; every stop compared (line and every activation's variables) with the reference interpreter's event. Non-trivial: >= 3 instructions and >= 1 stop compared."},
+      {"C08", "free-layout generated project (several statements per line, headers sharing lines, tokens spread over included files); table-inverse invariant at load and 'reported => enable-able' at every stop. Non-trivial as C05."},
+      {"C11", "macro set (convergent / divergent / mutually recursive families with random priorities, or random sets) and a pass budget in {1..64, 1024}; Theo::apply_macros called directly, pass loop counted through the hook, one more pass on the output decides whether rewriting was still possible. Non-trivial: >= 1 pass with >= 1 definition."},
+      {"C15", "include topology over 1-5 files (self-includes, cycles, diamonds, repeats, dangling includes, odd names) with a subset of files lost (thorough: every subset of <= 2 files per topology); Theo::scan and Theo::compile compared with the resolver model; then the provider loop. Non-trivial: some include error predicted or > 1 file."},
+      {"C16", "generated project biased to calls / LOOP-only bodies, half of them with a call-graph fault (self-call, forward call, swapped definitions, renamed callee); depth invariant per instruction, EXEC certificate, halting bound, rejection of undefined callees. Non-trivial as C05, or an expected rejection observed."},
+      {"C17", "sessions with reset() at arbitrary instants; a third of the workloads enumerate the reset instant over every instruction boundary (<= 300); after each reset the machine is compared with a freshly constructed one, and the model restarts from t = 0. Non-trivial as C05."},
+      {"C18", "2-4 caller tasks (often near-copies of one project) on real threads released one at a time at hook points by a seeded schedule vector; each task's fingerprint alone-before = interleaved = alone-after = alone-in-opposite-order-in-another-process. Non-trivial: >= 2 context switches."},
+      {"C19", "call-heavy generated project; sum of live frame sizes == data words and contiguity checked after every instruction (also inside execute() through the hook) and after every debugger op incl. reset. Non-trivial as C05."},
+      {"C20", "boundary-valued generated project (constants near 2^31) run under UBSan with every word range-checked after every instruction and the run repeated; every 4th run inflates one literal of a valid project in the file store and expects a rejection. Non-trivial as C05 / the compile returned."},
+  };
+  auto rit = RULES.find(cfg.prop);
+  cov.set("rule", std::string("one evaluation = one simulated run of a seeded, explicit, replayable plan against the real library. ") + (rit == RULES.end() ? "" : rit->second) +
+                  " distinct_nontrivial counts distinct event-log hashes among the non-trivial runs.");
   Json sm = Json::arr();
   for (auto &s : samples) sm.push(s);
   if (samples.empty()) sm.push("(no sample recorded)");
